@@ -54,7 +54,7 @@ pub fn main(args: &[String]) -> i32 {
     let n = job["n"].as_u64().unwrap_or(100);
     let len = job["len"].as_u64().unwrap_or(12) as usize;
     for s in 0..n {
-        let mut rng = Rng::new(seed * 1_000_003 + s);
+        let mut rng = Rng::new(seed.wrapping_mul(1_000_003).wrapping_add(s));
         let mut maps: Vec<MarkMap<u8, u32>> = vec![MarkMap::new(), MarkMap::new()];
         writeln!(out, "{}", json!({"ev": "mm_reset", "id": format!("mm{}", s)})).unwrap();
         for _ in 0..len {
